@@ -269,7 +269,29 @@ func checkCanonicalParse(p *Program, r *Result, parse, rs, ivs, dec *ssa.Functio
 		}
 		r.Check(okEmpty, ivs.String(), "empty", "", "empty string is invalid", "the empty string is accepted as an argument")
 		okRange := false
+		decidedByEval := false
+		if ep, _ := p.elemPredicate(ivs, func(v ssa.Value) bool { return v == ssa.Value(ivs.Params[0]) }); ep != nil {
+			// E10: the set of element values the loop carries on with, whatever the shape of the test
+			eq, ok, _ := ep.Equals(func(c int64) bool { return c >= 33 && c <= 126 }, []int64{33, 126})
+			if ok {
+				decidedByEval = true
+				trueAfter := true
+				for _, ret := range returnsOf(ivs) {
+					if c, isC := ret.Results[0].(*ssa.Const); isC && c.Value.ExactString() == "true" {
+						if !p.completedAt(ep.Loop, ret.Block()) {
+							trueAfter = false
+						}
+					} else if !isC {
+						trueAfter = false
+					}
+				}
+				okRange = eq && trueAfter
+			}
+		}
 		for _, l := range rangeLoops(ivs) {
+			if decidedByEval {
+				break
+			}
 			if l.Kind != "rangeiter" || stripConv(l.Over) != ivs.Params[0] || len(l.earlyExits()) != 0 {
 				continue
 			}
